@@ -170,6 +170,18 @@ func TestC05(t *testing.T) {
 	checkRapid(t, r, func(t *rapid.T) {
 		k := gen.Uniform(0, len(cfgs)-1).Draw(t, "profile")
 		p, tags := gen.Program(t, cfgs[k])
+		renamedDesc := ""
+		if len(p.Files) == 1 && gen.Uniform(0, 5).Draw(t, "spelled-like-emitted-names") == 0 {
+			// identifiers spelled like the names the Batch script itself uses (cmd.exe folds the case of variables and labels):
+			// the meaning of the program is the same, so the reference decides as for any other program
+			mf := p.Files[p.Main]
+			if rs, desc := renameLikeEmitted(t, mf.Stmts); desc != "" {
+				nf := *mf
+				nf.Stmts = rs
+				p = &ts.Program{Files: map[string]*ts.File{p.Main: &nf}, Main: p.Main}
+				renamedDesc = desc
+			}
+		}
 		ref, err := refRun(p, maxSteps, nil, nil)
 		if err != nil {
 			reason := "invalid"
@@ -187,12 +199,22 @@ func TestC05(t *testing.T) {
 		src := files[p.Main]
 		c := batchCase{Kind: "batch-model-run", Property: "C05", Files: files, Main: p.Main, ExpectStdout: ref.Stdout, ExpectStatus: ref.Status, RefSteps: ref.Steps + 1}
 		kind, msg, res := runBatchCase(c)
+		if renamedDesc != "" {
+			if kind == "rejected" || strings.Contains(kind, "reject") {
+				r.Discard("renamed-program-rejected") // a renaming may be refused (C10)
+				t.Skip("renamed program rejected")
+			}
+			msg = "identifiers renamed (" + renamedDesc + "): " + msg
+		}
 		if strings.HasPrefix(kind, "inconclusive") {
 			r.Inconclusive(strings.SplitN(strings.TrimPrefix(kind, "inconclusive:"), ":", 3)[0] + ":" + strings.Join(strings.SplitN(strings.TrimPrefix(kind, "inconclusive:"), ":", 3)[1:], ":"))
 			t.Skip(kind)
 		}
 		r.Eval()
 		r.Class(fmt.Sprintf("profile-%d", k))
+		if renamedDesc != "" {
+			r.Class("identifiers-spelled-like-emitted-names")
+		}
 		for _, tg := range []string{"nested-loop", "loop", "if", "elif", "func", "slice-write", "break", "continue", "two-digit-index"} {
 			if tags[tg] > 0 {
 				r.Class(tg)
